@@ -11,6 +11,7 @@ import (
 	"os"
 	"path/filepath"
 	"runtime"
+	"runtime/debug"
 	"sort"
 	"strings"
 	"time"
@@ -113,7 +114,13 @@ func curPath(t []byte) string {
 	return fmt.Sprintf("/dev/shm/walmc-%s-cur/%x", os.Getenv("WALMC_PARENT"), shortHash(t))
 }
 
+var gcSet bool
+
 func worker(tb []byte, progress func()) []byte {
+	if !gcSet {
+		debug.SetGCPercent(400)
+		gcSet = true
+	}
 	var t task
 	res := result{Classes: map[string]int{}}
 	if err := json.Unmarshal(tb, &t); err != nil {
